@@ -13,7 +13,7 @@ BUDGETS = {"quick": 30.0, "thorough": 600.0}
 CHUNK = 32
 RULE = (
     "seeded histories of <= 30 store operations (store / has / fetch blob, sync / fetch paths, re-open the store on the "
-    "same directories) on MemoryStore, LocalFileStore, the cache-wrapped local store and DBFSStore over the fake dbutils, "
+    "same directories, switch between two live store objects on the same directories) on MemoryStore, LocalFileStore, the cache-wrapped local store and DBFSStore over the fake dbutils, "
     "compared step by step with a dictionary model (blobs: key -> value, paths: tuple of non-empty segments -> key). "
     "Paths of 1-4 segments over {a, b, ab, a.b, 'a b', e-acute, '.', '..'} with doubled separators, prefix-free within a "
     "run; value types str / bytes / None / picklable object. A path with a '.' or '..' segment may be rejected with a "
@@ -32,7 +32,7 @@ ASSUMPTIONS = [
     "paths are only committed to keys whose blob was stored (as dds itself does)",
     "fidelity of the fake dbutils to Databricks is trusted, not checked",
 ]
-PROBES = ["concat_ambiguous_paths_live", "dot_segment_offered", "dot_segment_rejected", "reopen_between_write_and_read",
+PROBES = ["second_live_store_object", "concat_ambiguous_paths_live", "dot_segment_offered", "dot_segment_rejected", "reopen_between_write_and_read",
           "store:memory", "store:local", "store:lru", "store:dbfs", "contain_checked"]
 SEGS = ["a", "b", "ab", "a.b", "a b", "é", "c", ".a", ".ab", "a."]
 DOTS = [".", ".."]
@@ -97,7 +97,11 @@ def gen_case(streams, tier, avoid):
     n = cfg.randint(4, 30 if tier == "quick" else 60)
     ops = []
     keys = sorted(vals)
+    p_switch = cfg.choice([0.0, 0.04, 0.2, 0.35])
     for _ in range(n):
+        if rng.random() < p_switch:
+            ops.append(["switch"])     # continue with the other of two live store objects on the same directories
+            continue
         r = rng.random()
         if r < 0.25:
             ops.append(["store", rng.choice(keys)])
@@ -112,6 +116,14 @@ def gen_case(streams, tier, avoid):
             ops.append(["paths", [rng.choice(spelled) for _ in range(rng.randint(1, 2))]])
         else:
             ops.append(["reopen"])
+    if store != "memory" and len(keys) >= 2 and cfg.random() < 0.2:
+        # two writers alternating on one path: A commits k1, B commits k2, A commits k1 again
+        pth = cfg.choice(spelled)
+        k1, k2 = cfg.sample(keys, 2)
+        pat = [["store", k1], ["store", k2], ["sync", [[pth, k1]]], ["switch"], ["sync", [[pth, k2]]], ["switch"],
+               ["sync", [[pth, k1]]], ["paths", [pth]], ["switch"], ["paths", [pth]]]
+        at = cfg.randint(0, len(ops))
+        ops[at:at] = pat
     return {"store": store, "cap": cfg.choice([1, 2, 10]), "vals": vals, "ops": ops}
 
 
@@ -150,6 +162,9 @@ def run_case(case):
     root = new_scratch("c08")
     try:
         store = _open(case, root)
+        objs = [store, None]      # two live store objects on the same directories (two processes, two sessions)
+        cur = 0
+        wsr = [set(), set()]
         vals = case["vals"]
         blobs = set()
         paths = {}       # segs tuple -> key
@@ -167,9 +182,23 @@ def run_case(case):
             if k == "reopen":
                 if case["store"] != "memory":
                     store = _open(case, root)
+                    objs[cur] = store
                     written_since_reopen = set()
+                    wsr[cur] = written_since_reopen
                     akey.append("R")
                 log.append([step, "reopen"])
+                continue
+            if k == "switch":
+                if case["store"] != "memory":
+                    wsr[cur] = written_since_reopen
+                    cur = 1 - cur
+                    if objs[cur] is None:
+                        objs[cur] = _open(case, root)
+                    store = objs[cur]
+                    written_since_reopen = wsr[cur]
+                    probe("second_live_store_object")
+                    akey.append("S")
+                log.append([step, "switch", cur])
                 continue
             try:
                 if k == "store":
